@@ -28,7 +28,8 @@
    (what the runner does with them when nothing fails)   setup_all / teardown_all / dry_run_test / dry_run_suite / dry_run (end of file)
 
    Truthiness tests mirrored: `elif self._parent_scheduled_fixtures:` is an `is not None` test in effect (ScheduledFixtures defines neither
-   __bool__ nor __len__): the empty chain is "no parent".  `if not suite.has_enabled_tests() and not include_disabled` is boolean.
+   __bool__ nor __len__): the empty chain is "no parent".  `if not suite.has_enabled_tests() and not (include_disabled and suite.get_tests())`: the list
+   truthiness of get_tests() is has_tests (non-empty).
    KeyError models `self._fixtures[name]` on a missing key (never reached on a validated project: proved in Proofs/FixtureP.v). *)
 From Coq Require Import List Arith Bool.
 Import ListNotations.
@@ -204,8 +205,13 @@ Definition test_enabled (suite_disabled : bool) (t : test) : bool := negb (suite
 Definition has_enabled_tests (inh : bool) (s : suite) : bool :=
   existsb (test_enabled (inh || su_disabled s)) (su_tests s).
 
+(* truthiness of suite.get_tests(): the suite has at least one direct test *)
+Definition has_tests (s : suite) : bool := match su_tests s with [] => false | _ => true end.
+
+(* `if not suite.has_enabled_tests() and not (include_disabled and suite.get_tests()): return OrderedSet()`  (fix F19: a suite
+   without any direct test uses no fixture, even under --force-disabled) *)
 Definition get_fixtures_used_in_suite (inh : bool) (s : suite) (include_disabled : bool) : list name :=
-  if negb (has_enabled_tests inh s) && negb include_disabled then []
+  if negb (has_enabled_tests inh s) && negb (include_disabled && has_tests s) then []
   else fold_left (fun acc t => if test_enabled (inh || su_disabled s) t || include_disabled
                                then oset_update acc (test_fixtures t) else acc)
                  (su_tests s) (suite_fixtures s).
@@ -384,7 +390,7 @@ Arguments teardown_fixture {V} c n.
      run_suites:            pre_run schedule, setups in get_setup_teardown_pairs order
      _run_suites:           session schedule (parent: pre_run), setups in order (TestSessionSetupTask)
      build_suite_tasks:     per suite (pre-order) a suite schedule (parent: session); SuiteInitializationTask exists iff
-                            has_enabled_tests or force_disabled: setups in order, then get_fixture_results(injected),
+                            has_enabled_tests or (force_disabled and the suite has direct tests) (fix F19): setups in order, then get_fixture_results(injected),
                             then get_fixture_results(setup_suite arguments)
      TestTask.run:          per test that is enabled or forced: test schedule (parent: the suite's), setups in order,
                             then _prepare_test_args: get_fixture_result for each argument that is not a parameter,
@@ -421,7 +427,7 @@ Fixpoint dry_run_suite (reg : registry) (force_disabled : bool) (session_chain :
   match s with
   | Suite _ d hk inj ts subs =>
       bind (get_fixtures_scheduled_for_suite reg inh s force_disabled) (fun fxs =>
-      bind (if has_enabled_tests inh s || force_disabled then
+      bind (if has_enabled_tests inh s || (force_disabled && has_tests s) then
               bind (setup_all (new_level fxs :: session_chain)) (fun c =>
               bind (get_fixture_results c (oset_update [] inj)) (fun _ =>
               bind (get_fixture_results c (match h_setup_suite hk with Some (args, _) => args | None => [] end)) (fun _ =>
@@ -429,7 +435,7 @@ Fixpoint dry_run_suite (reg : registry) (force_disabled : bool) (session_chain :
             else Ok (new_level fxs :: session_chain)) (fun c =>
       bind (for_each (fun t => if test_enabled (inh || d) t || force_disabled then dry_run_test reg c t else Ok tt) ts) (fun _ =>
       (* SuiteTeardownTask: only when the initialisation task exists *)
-      bind (if has_enabled_tests inh s || force_disabled then bind (teardown_all c) (fun _ => Ok tt) else Ok tt) (fun _ =>
+      bind (if has_enabled_tests inh s || (force_disabled && has_tests s) then bind (teardown_all c) (fun _ => Ok tt) else Ok tt) (fun _ =>
       for_each (dry_run_suite reg force_disabled session_chain (inh || d)) subs))))
   end.
 
